@@ -493,8 +493,29 @@ def op_const(op):
 
 
 def load(config="ws"):
+    import pickle
     from . import build
     fdir, info = build.ensure_facts(config)
+    # parsed-facts cache: valid for exactly this tree hash, this facts directory listing and this version of facts.py
+    sig = "%s|%s|%s" % (info.get("tree", ""), os.path.getmtime(os.path.abspath(__file__)),
+                        ",".join("%s:%d" % (os.path.basename(p), os.path.getmtime(p)) for p in sorted(glob.glob(os.path.join(fdir, "*.json")))))
+    pk = os.path.join(os.path.dirname(fdir), "db.pickle")
+    if os.environ.get("GX_NO_PICKLE") != "1" and os.path.exists(pk):
+        try:
+            with open(pk, "rb") as fh:
+                got_sig, db = pickle.load(fh)
+            if got_sig == sig:
+                db.info = info
+                return db
+        except Exception:
+            pass
     db = DB(fdir)
     db.info = info
+    try:
+        tmp = pk + ".tmp%d" % os.getpid()
+        with open(tmp, "wb") as fh:
+            pickle.dump((sig, db), fh, protocol=pickle.HIGHEST_PROTOCOL)
+        os.replace(tmp, pk)
+    except Exception:
+        pass
     return db
